@@ -293,7 +293,9 @@ class Agent:
                 sec.update(priv_alg=user["priv_alg"], priv_kul=user["priv_kul"], salt=salt)
                 priv_field = salt
         usm_f = dict(engine_id=self.engine_id, boots=boots, time=time, user=m["usm"]["user"], auth=auth_field, priv=priv_field)
-        scoped = snmp.scoped_pdu_node(self.engine_id, b"", snmp.pdu_node(pdu_tag, request_id, es, ei, vbs))
+        ctx = self.cfg.get("ctx_engine_id")
+        ctx_id = self.engine_id if ctx is None else bytes.fromhex(ctx)
+        scoped = snmp.scoped_pdu_node(ctx_id, self.cfg.get("ctx_name", "").encode(), snmp.pdu_node(pdu_tag, request_id, es, ei, vbs))
         tree = snmp.v3_msg(m["msg_id"], 65507, flags, usm_f, scoped)
         label = {
             "wf": True,
